@@ -2,6 +2,7 @@ package eng
 
 import (
 	"fmt"
+	"time"
 	"sort"
 	"go/constant"
 	"go/token"
@@ -515,6 +516,7 @@ func (x *exec) enterLoop(li *loopInfo, s *State) *State {
 	}
 	for round := 0; round < 8; round++ {
 		consts := map[*Term]bool{}
+		idStart := e.C.NumTerms()
 		hs = x.havoc(s, m, consts, tag)
 		var backs []*State
 		e.dry++
@@ -561,7 +563,9 @@ func (x *exec) enterLoop(li *loopInfo, s *State) *State {
 					}
 					rows = keep
 					for _, r := range rows {
-						if mentions(r, consts, memo) {
+						if mentions(r, consts, memo) || mentionsNewConst(r, idStart, map[*Term]bool{}) {
+							// depends on values of this iteration (or on results obtained
+							// in it): not a fixed location
 							ok = false
 						}
 					}
@@ -782,6 +786,12 @@ func (x *exec) step(s *State, in ssa.Instruction) bool {
 		x.pos = p
 	}
 	e.cur = x
+	e.steps++
+	if e.steps%256 == 0 {
+		if e.C.NumTerms() > e.funcTermBase+6000000 || time.Since(e.funcStart) > 120*time.Second {
+			e.unsupported("verification-condition generation exceeded its budget (%d terms, %.0fs)", e.C.NumTerms()-e.funcTermBase, time.Since(e.funcStart).Seconds())
+		}
+	}
 	switch i := in.(type) {
 	case *ssa.DebugRef:
 		return true
@@ -1454,4 +1464,21 @@ func shortTerm(t *Term) string {
 		s = s[:160] + "..."
 	}
 	return s
+}
+
+// mentionsNewConst: t mentions a constant created after term number id.
+func mentionsNewConst(t *Term, id int, seen map[*Term]bool) bool {
+	if seen[t] {
+		return false
+	}
+	seen[t] = true
+	if t.Op == "const" && t.ID() > id {
+		return true
+	}
+	for _, a := range t.Args {
+		if mentionsNewConst(a, id, seen) {
+			return true
+		}
+	}
+	return false
 }
